@@ -4,7 +4,7 @@ from mirlib import *
 from ranges import *
 from shape import index_from
 import factsbuild, r_encclass, r_state, r_effect, r_kernel, scan, r_lane, r_endian
-from paths import loop_heads
+from paths import loop_heads, region_paths
 
 MANIFEST = {
     'category': 'other',
@@ -339,6 +339,42 @@ def search_segments(rep, f, c):
     return n
 
 
+def astral_filter(rep, f, c):
+    """C17-D5.astral: BIG5_LOW_BITS keeps only the low 16 bits of each index entry, so an element-wise match `BIG5_LOW_BITS[i] == x`
+    identifies a code point only together with big5_is_astral(i).  Every returning path on which such a match holds must also have
+    tested big5_is_astral at the same index (the default build's tail scans; the fast-big5 build has a table instead)."""
+    import os
+    n = 0
+    for name, b in sorted(f.bodies.items()):
+        if not name.startswith('data::'):
+            continue
+        heads = loop_heads(b)
+        if not heads:
+            continue
+        for h in heads:
+            for p in region_paths(b, h):
+                if p.end[0] != 'return':
+                    continue
+                rv = p.env.get(0)
+                if rv is None or not any(isinstance(x, tuple) and x and x[0] == 'agg' and str(x[1]).endswith('Some') for x in walk(rv)):
+                    continue
+                for e in p.conds():
+                    ce = e[1]
+                    if not (isinstance(ce, tuple) and ce[0] == 'bin' and ce[1] == 'Eq' and e[2] is True):
+                        continue
+                    idxs = [x for x in walk(ce) if isinstance(x, tuple) and x and x[0] == 'idx' and any(isinstance(y, tuple) and y and y[0] == 'cptr' and 'BIG5_LOW_BITS' in str(y[1]) for y in walk(x[1]))]
+                    if not idxs:
+                        continue
+                    I = strip_ref(idxs[0][2])
+                    tested = any(isinstance(x, tuple) and x and x[0] == 'call' and (x[1] or '').endswith('big5_is_astral') and strip_ref(x[2][0]) == I
+                                 for e2 in p.conds() for x in walk(e2[1]))
+                    n += 1
+                    rep.ob('C17-D5.astral', name, tested, 'a match of BIG5_LOW_BITS[i] (low 16 bits only) is returned as a pointer on a path that never tests '
+                           'big5_is_astral(i): an unrelated BMP character becomes encodable as a supplementary-plane pointer in this configuration only',
+                           sp_str(b.blocks[e[3]]['tsp']), None, c)
+    return n
+
+
 def run(rep, facts, tier):
     o = oracles()
     rep.analysed['index_sizes'] = {k: v for k, v in o.items() if k.endswith('_len')}
@@ -363,6 +399,9 @@ def run(rep, facts, tier):
             lessslow_tables(rep, f, c, o)
         if c in ('default', 'lessslow', 'fast', 'noalloc'):
             nseg = search_segments(rep, f, c)
+            na = astral_filter(rep, f, c)
+            if c in ('default', 'noalloc'):
+                rep.floor('C17-D5.astral', 'element-wise BIG5_LOW_BITS matches returned as pointers', na, 2, c)
             rep.floor('C17-D5.segment', 'constant search segments over index-aligned decode tables', nseg, {'default': 16, 'noalloc': 16, 'lessslow': 12, 'fast': 11}[c], c)
         if base is not None and c in ('fast', 'lessslow', 'simd', 'noalloc'):
             prof = class_profile(f)
